@@ -36,7 +36,7 @@ import (
 
 func Main() {
 	mc.Main("C36", "exploration",
-		"all histories of <=d change events (create, update, delete, rename to any absent path; optionally flagged as coming from the other cluster) over files {/data/x,/data/s/x,/data2/x,/dat/x,/other/x}, source directory /data, target directory /backup; seams {Replicator.Replicate, genProcessFunction} x sinks {reference recording sink named 'filer', same named 'other', real LocalSink}; oracle after every event: sink tree = mapped source subtree, no call for outside / other-cluster events; distinct = (seam, sink, event kind, path classes, outcome)",
+		"all histories of <=d change events (create, update, delete, rename to any absent path; optionally flagged as coming from the other cluster) over files {/data/x,/data/s/x,/data2/x,/dat/x,/other/x}, source directory /data, target directory /backup; seams {Replicator.Replicate, genProcessFunction} x sinks {reference recording sink named 'filer', same named 'other', real LocalSink}, plus filer.sync end to end (doSubscribeFilerMetaChanges + FilerSink + real target filer over gRPC, scripted source); oracle after every event: sink tree = mapped source subtree, no call for outside / other-cluster events; distinct = (seam, sink, event kind, path classes, outcome)",
 		run)
 }
 
@@ -428,21 +428,22 @@ func classify(seam, sinkKind string, e event, symptom string) string {
 	kind := eventKind(e)
 	sib := pathClass(e.Path) == "sibling-with-same-name-prefix" || pathClass(e.To) == "sibling-with-same-name-prefix"
 	sk := "reference-sink"
-	if sinkKind == "local" {
+	switch sinkKind {
+	case "local":
 		sk = "local-sink"
+	case "filer-sink":
+		sk = "filer-sink"
 	}
-	switch {
-	case symptom == "panic" || symptom == "error":
-		return fmt.Sprintf("%s:%s:%s:%s", symptom, seam, sk, kind)
-	case sib && !inside(e.Path) && !(e.Kind == "rename" && inside(e.To)):
+	ev := kind
+	if e.Kind == "rename" {
+		// the zones of both ends matter: a sibling like /data2 and a real outside path fail differently
+		ev = fmt.Sprintf("rename[%s>%s]", zone(e.Path), zone(e.To))
+	}
+	if sib && !inside(e.Path) && !(e.Kind == "rename" && inside(e.To)) && symptom != "panic" && symptom != "error" {
 		// an event that only touches a sibling whose name starts with the source directory's name
 		return fmt.Sprintf("sibling-name-prefix-treated-as-inside:%s", seam)
 	}
-	if e.Kind == "rename" {
-		// the classes of both ends matter: a sibling like /data2 and a real outside path fail differently
-		return fmt.Sprintf("%s:%s:rename[%s>%s]:%s", seam, sk, zone(e.Path), zone(e.To), symptom)
-	}
-	return fmt.Sprintf("%s:%s:%s:%s", seam, sk, kind, symptom)
+	return fmt.Sprintf("%s:%s:%s:%s", seam, sk, ev, symptom)
 }
 
 // zone: in = inside the source directory, sib = a sibling whose name starts with the source
@@ -537,6 +538,9 @@ type pend struct {
 }
 
 func validCase(c caseT) bool {
+	if c.Seam == "sync" && c.Sink == "filer-sink" {
+		return len(c.Events) > 0
+	}
 	if c.Seam != "replicate" && c.Seam != "process" {
 		return false
 	}
@@ -560,7 +564,14 @@ func run(r *mc.Run) {
 		if err := r.ReplayCase(&c); err != nil || !validCase(c) {
 			mc.Fatal("replay: bad case (%v)", err)
 		}
-		_, v := runHistory(c.Seam, c.Sink, c.Events, filepath.Join(scratchRoot, "replay"))
+		var v *verdict
+		if c.Seam == "sync" {
+			rig := newSyncRig()
+			_, v = runSyncHistory(rig, c.Events)
+			rig.close()
+		} else {
+			_, v = runHistory(c.Seam, c.Sink, c.Events, filepath.Join(scratchRoot, "replay"))
+		}
 		if v != nil {
 			r.Violate(v.class, v.msg, c, nil)
 		}
@@ -570,7 +581,8 @@ func run(r *mc.Run) {
 	r.Assume("events are encoded as Filer.NotifyUpdateEvent/logMetaEvent encode them (key = old path if any, NewParentPath = directory of the new entry, Directory = directory of the key)")
 	r.Assume("the reference sink interprets UpdateEntry(key, old, newParentPath, new) as FilerSink does: if key exists, the new entry is stored under newParentPath/new.Name")
 	r.Assume("files carry no chunks (content transfer needs a volume server and is not part of the mapping property); directories are implied by their files")
-	r.Assume("'came from the target cluster' is IsFromOtherCluster for filer.replicate with a sink named filer; filer.sync's signature filter sits in doSubscribeFilerMetaChanges and is exercised in the sync domain")
+	r.Assume("'came from the target cluster' is IsFromOtherCluster for filer.replicate with a sink named filer, and the target filer's signature in the event for filer.sync (filter in doSubscribeFilerMetaChanges, exercised in the sync domain)")
+	r.Assume("sync domain: the source filer is scripted (one subscription per event, every event delivered unfiltered); the target is a real Filer + FilerServer over leveldb2 reached through gRPC on loopback")
 	depth := r.Pick(3, 4)
 	r.Set("depth", depth)
 	type unit struct {
@@ -636,6 +648,52 @@ func run(r *mc.Run) {
 		}
 		tallies[i] = t
 	})
+	// filer.sync end to end: scripted source, real FilerSink, real target filer (4 rigs in parallel)
+	syncDepth := r.Pick(2, 3)
+	var syncHist [][]event
+	histories(syncDepth, true, func(h []event) { syncHist = append(syncHist, append([]event(nil), h...)) })
+	r.Set("sync_depth", syncDepth)
+	r.Set("sync_histories", len(syncHist))
+	const rigs = 4
+	syncTallies := make([]flib.Tally, rigs)
+	syncPends := make([][]pend, rigs)
+	// filer_sync.go prints "skipping ..." lines with fmt.Printf: keep them off this check's stdout
+	realStdout := os.Stdout
+	if devnull, err := os.OpenFile(os.DevNull, os.O_WRONLY, 0); err == nil {
+		os.Stdout = devnull
+	}
+	r.Go(rigs, rigs, func(k int) {
+		rig := newSyncRig()
+		defer rig.close()
+		t := flib.Tally{}
+		seen := map[string]int{}
+		for j := k; j < len(syncHist); j += rigs {
+			classes, v := runSyncHistory(rig, syncHist[j])
+			if len(classes) == len(syncHist[j]) {
+				t.Add(classes[len(classes)-1])
+			}
+			if v != nil && len(classes) == len(syncHist[j]) {
+				c := caseT{"sync", "filer-sink", syncHist[j]}
+				if x, ok := seen[v.class]; !ok {
+					seen[v.class] = len(syncPends[k])
+					syncPends[k] = append(syncPends[k], pend{*v, c})
+				} else if len(syncHist[j]) < len(syncPends[k][x].c.Events) {
+					syncPends[k][x] = pend{*v, c}
+				}
+			}
+		}
+		syncTallies[k] = t
+	})
+	os.Stdout = realStdout
+	tallies = append(tallies, syncTallies...)
+	pends = append(pends, syncPends...)
+	var recheckRig *syncRig
+	defer func() {
+		if recheckRig != nil {
+			recheckRig.close()
+		}
+	}()
+
 	total := flib.Tally{}
 	for _, t := range tallies {
 		for k, v := range t {
@@ -657,6 +715,18 @@ func run(r *mc.Run) {
 		n++
 		sc := filepath.Join(scratchRoot, fmt.Sprintf("recheck%d", n))
 		r.Violate(p.v.class, p.v.msg, p.c, func() bool {
+			if p.c.Seam == "sync" {
+				if recheckRig == nil {
+					recheckRig = newSyncRig()
+				}
+				keep := os.Stdout
+				if devnull, err := os.OpenFile(os.DevNull, os.O_WRONLY, 0); err == nil {
+					os.Stdout = devnull
+					defer func() { devnull.Close(); os.Stdout = keep }()
+				}
+				_, v := runSyncHistory(recheckRig, p.c.Events)
+				return v != nil && v.class == p.v.class
+			}
 			defer os.RemoveAll(sc)
 			_, v := runHistory(p.c.Seam, p.c.Sink, p.c.Events, sc)
 			return v != nil && v.class == p.v.class
